@@ -3,7 +3,8 @@ Proof: Props/C08.v over Gen/C08.v (header updates of every API, regenerated from
 Correspondence: the regenerated header functions under vm_compute (exact rationals; binary64 twin of the frequency ->
 channel quotient) versus the headers of the containers returned / files written by the implementation.
 Oracle: the property restated in NumPy -- header fields of every product compared with the input rows actually present in
-its data (frequencies 1e-6 relative, tstart 5 microseconds, on-disk bits per written element)."""
+its data (frequencies 1e-6 relative and never more than 5% of a channel width, tstart 5 microseconds, on-disk bits per written
+element, the DM recorded by the input kept by every product that does not dedisperse)."""
 import os
 import re
 import shutil
@@ -53,6 +54,37 @@ def label(h, k):
     return h["fch1"] + k * h["foff"]
 
 
+LFRAC = 0.05         # labels: never further than this fraction of a channel width (so a neighbouring channel's label never passes)
+
+
+def ltol(a, b, foff):
+    """tolerance on a label: FTOL relative, and at most LFRAC of the input's channel width"""
+    return min(FTOL * max(abs(a), abs(b)), LFRAC * abs(foff))
+
+
+def lclose(a, b, foff):
+    return abs(a - b) <= ltol(a, b, foff)
+
+
+def nearest(f, lab, foff):
+    """the requested frequency f designates the channel labelled lab: FTOL relative and strictly nearer than the neighbours
+    (0.45 of a channel leaves room for the float32 spelling chan_freqs[k] of narrow channels)"""
+    return abs(f - lab) <= min(FTOL * max(abs(f), abs(lab)), 0.45 * abs(foff))
+
+
+def col_sources(back, sel, expected):
+    """back: samples x channels of a written file, sel: the input rows it was made from; for output column j the input channel
+    holding the same samples (expected[j] when that is one of them, else the first such, else expected[j]): labels are compared
+    with the input rows actually present in the data"""
+    if back is None or back.shape[0] != sel.shape[0] or back.shape[1] != len(expected):
+        return list(expected)
+    out = []
+    for j, e in enumerate(expected):
+        hits = [c for c in range(sel.shape[1]) if np.array_equal(back[:, j], sel[:, c])]
+        out.append(int(e) if (e in hits or not hits) else hits[0])
+    return out
+
+
 def find_offset(ref, out, prefer):
     """offsets o with ref[o:o+len(out)] == out (ref: 1-d or 2-d along axis 0); `prefer` if it is one of them"""
     n = len(out)
@@ -86,7 +118,7 @@ class Checker:
     def copy_labels(self, api, hin, hout, chans, extra=None):
         """output channel j was copied from input channel chans[j]"""
         for j, c in enumerate(chans):
-            if not close(label(hout, j), label(hin, c), FTOL):
+            if not lclose(label(hout, j), label(hin, c), hin["foff"]):
                 self.fail(api, "label", "label of an output channel differs from that of the input channel it was copied from",
                           out_channel=j, in_channel=int(c), out_label=label(hout, j), in_label=label(hin, c),
                           **dict(extra or {}, header_in=hin, header_out=hout))
@@ -104,7 +136,7 @@ class Checker:
             a, b = label(hin, j * factor), label(hin, j * factor + factor - 1)
             lo, hi = min(a, b), max(a, b)
             x = label(hout, j)
-            slack = FTOL * max(abs(lo), abs(hi))
+            slack = ltol(lo, hi, hin["foff"])
             if not (lo - slack <= x <= hi + slack):
                 self.fail(api, "label-span", "label of a summed/averaged channel lies outside the span of its inputs",
                           out_channel=j, out_label=x, span=[lo, hi], **ex)
@@ -121,7 +153,11 @@ def run(R: vlib.Run):
               "dyadic controls (-4, -0.390625), input depths 8/32 (outputs 8/16/32), several tsamp/tstart; for each, every API that returns a container or writes a "
               "file is called on random (start, nsamps, gulp), channel selections, factors, sub-band counts and DMs; read_block is requested by the "
               "frequency of EVERY channel (float64 fch1+k*foff and the float32 chan_freqs[k]).  distinct = (api, channelisation, parameters); "
-              "non-trivial = start > 0 or a channel other than the first or a factor > 1")
+              "non-trivial = start > 0 or a channel other than the first or a factor > 1.  Every other pair of inputs records a DM (12.5) in its header; "
+              "DMs of either sign (negative delays on ascending bands / negative DMs: dedisperse, subband, read_dedisp_block, block.dedisperse with "
+              "ref_freq / only_valid_samples); nsamps left to its default for the file writers; channel selections in either order or left to their default; "
+              "packed output depths (1/2/4 bits); a set of two files with the sub-range starting in the second; the columns of inverted / masked / "
+              "requantized files are located in the input; labels are compared to 5% of a channel width")
     R.trusted += ["Coq 8.16.1 kernel + vm_compute (closed witnesses, Examples, correspondence)",
                   "primitive binary64 floats of Coq (PrimFloat/Uint63 primitives are listed by Print Assumptions) for the float twin of (f - fch1)/foff",
                   "tools/py2coq/gen_c08.py: Python ast -> exact Q/Z expressions; Header.new_header / prep_outfile are template-checked and modelled by hand "
@@ -130,7 +166,19 @@ def run(R: vlib.Run):
                   "SIGPROC header encode/parse round trip (C05) when a written file is re-opened",
                   "correspondence harness and NumPy oracle tools/harness/props/c08.py"]
     R.assume += ["float64 evaluation of the header expressions stays within 1e-9 relative of the exact value (checked on every correspondence case)",
-                 "the data handed to the writer / container are what C06/C07 prove; C08 only locates them to know which input rows they are"]
+                 "the data handed to the writer / container are what C06/C07 prove; C08 only locates them to know which input rows they are",
+                 "packed outputs (1/2/4 bits): every block handed to the writer is a whole number of bytes, i.e. gulp*nchans*nbits_out and nsamps*nchans*nbits_out "
+                 "are multiples of 8 (FileWriter.cwrite packs block by block and drops the bits of an incomplete last byte: 64 samples x 6 channels requantized "
+                 "to 1 bit with gulp=7 come out as 60 samples), and they are made from 8-bit inputs only (pack() refuses 16/32-bit data)",
+                 "tstart of a block padded at its START (BaseBlock.pad_samples with offset > 0, hence PulseExtractor.get_data for a pulse closer to the start of "
+                 "the file than half a block, nstart < 0) is not demanded: pad_samples keeps the tstart of the unpadded block although column 0 is now "
+                 "`offset` samples earlier; tstart IS demanded of end-padded blocks and of extracted pulses with nstart >= 0",
+                 "tstart + start*tsamp/86400 is demanded on days of 86400 s: no input starts on a UTC day that ends in a leap second (e.g. MJD 57753), where "
+                 "astropy's UTC MJD (a day of 86401 s) differs from the SIGPROC convention by 11.6 us per second elapsed",
+                 "FilterbankBlock.dedisperse(only_valid_samples=True): tstart is demanded only when no dispersion delay is negative (descending band and dm >= 0); "
+                 "with a negative delay the first valid column of the reference channel is block sample max|delay| while tstart is left unchanged",
+                 "the DM attribute of a block is demanded of read_block / read_dedisp_block / dedisperse; FilterbankBlock.downsample / normalise / pad_samples "
+                 "return a block whose dm attribute is reset to 0 (its header keeps the input's dm, which is what is compared)"]
     R.prove("Props/C08.v")
     R.need(["Model/C08_rt.vo", "Gen/C08.vo"])
 
@@ -198,7 +246,8 @@ def run(R: vlib.Run):
 
     try:
         # ---- channelisations ---------------------------------------------------------------------------------
-        chans = [(1500.0, -0.1), (1400.0, -1.0 / 3.0), (1200.0, 0.1), (1100.0, 1.0 / 3.0), (1500.0, -4.0), (1382.3, -0.390625)]
+        chans = [(1500.0, -0.1), (1400.0, -1.0 / 3.0), (1200.0, 0.1), (1100.0, 1.0 / 3.0), (1500.0, -4.0), (1382.3, -0.390625),
+                 (2950.25, -0.0015)]      # channels narrower than 1e-6 of their frequency: a neighbour's label is within FTOL, not within LFRAC of a channel
         nrand = 8 if R.tier == "quick" else 40
         for _ in range(nrand):
             mag = rng.choice([0.0123, 0.05, 0.3, 0.7, 1.1, 2.3, 0.03125]) * rng.choice([1, 1, 3, 7]) / rng.choice([1, 3, 7, 9])
@@ -213,12 +262,28 @@ def run(R: vlib.Run):
             N = rng.randrange(36, 64)
             hi = 200 if nbits == 8 else 1000
             X = nprng.integers(1, hi, (N, C))
-            path = filutil.write_fil(os.path.join(d, f"in{ci}.fil"), X, nbits, fch1=fch1, foff=foff, tsamp=tsamp, tstart=tstart)
+            in_dm = (0.0, 12.5)[(ci // 2) % 2]        # every other pair of inputs is a file that records a DM (e.g. sub-banded data)
+            path = filutil.write_fil(os.path.join(d, f"in{ci}.fil"), X, nbits, fch1=fch1, foff=foff, tsamp=tsamp, tstart=tstart, dm=in_dm)
             fil = FilReader(path)
             hin = hdict(fil.header)
             hin_t = hdr_term(fil.header)
             Xf = X.astype(np.float64)
-            cfg = {"fch1": fch1, "foff": foff, "nchans": C, "nsamples": N, "nbits": nbits, "tsamp": tsamp, "tstart": tstart}
+            cfg = {"fch1": fch1, "foff": foff, "nchans": C, "nsamples": N, "nbits": nbits, "tsamp": tsamp, "tstart": tstart, "header_dm": in_dm}
+
+            def block_dm(ck, api, b, extra=None):
+                """a block read without dedispersion records the DM the input records"""
+                if not close(float(b.dm), hin["dm"], STOL):
+                    ck.fail(api, "block-dm", "the dm of a block read from the file is not the DM the input's header records",
+                            block_dm=float(b.dm), header_in=hin, **(extra or {}))
+
+            def dm_neg_delays():
+                """a DM some of whose delays, as get_dmdelays returns them, are negative by 2 samples or more (ascending band: dm > 0,
+                descending band: dm < 0), the smallest such on a geometric grid; None if the band is too narrow for any"""
+                sgn = 1.0 if foff > 0 else -1.0
+                for v in np.geomspace(1.0, 5000.0, 50):
+                    if int(fil.header.get_dmdelays(sgn * float(v)).astype(int).min()) <= -2:
+                        return sgn * float(v)
+                return None
 
             def xq(f):
                 """the binary64 value of the quotient (f - fch1)/foff, as the generated float twin evaluates it"""
@@ -257,11 +322,12 @@ def run(R: vlib.Run):
                         ck.fail("read_block", "rows", "returned rows are not rows of the input at the requested samples", shape=list(b.data.shape))
                         continue
                     src = [int(r[0]) for r in rows]
-                    if not close(f, label(hin, src[0]), FTOL):
+                    if not nearest(f, label(hin, src[0]), hin["foff"]):
                         ck.fail("read_block", "freq-index", "requesting a channel's frequency returned a different channel",
                                 returned_first_channel=src[0], its_label=label(hin, src[0]))
                     ck.copy_labels("read_block", hin, ho, src)
-                    ck.common("read_block", hin, ho, t0=st)
+                    ck.common("read_block", hin, ho, t0=st, dm=hin["dm"])
+                    block_dm(ck, "read_block", b)
                     corr.append((f"match read_block_model_x {hin_t} {st} {ns} {q(f)} {n} {ns} {xq(f)} with None => false | Some (cs, rows, hh) => "
                                  f"(cs =? {src[0]}) && (rows =? {b.data.shape[0]}) && hdr_close hh {hdr_term(b.header)} end", dict(base, impl=ho, impl_first_channel=src[0])))
                     idx_cases.append((f, hin["fch1"], hin["foff"], src[0]))
@@ -287,12 +353,13 @@ def run(R: vlib.Run):
             if b.data.shape != (ho["nchans"], ho["nsamples"]):
                 ck.fail("read_block", "shape", "nchans/nsamples of the header differ from the data's shape", shape=list(b.data.shape), header_out=ho)
             t0 = find_offset(Xf, b.data.T, st)
-            ck.common("read_block", hin, ho, t0=t0 if t0 is not None else st)
+            ck.common("read_block", hin, ho, t0=t0 if t0 is not None else st, dm=hin["dm"])
             ck.copy_labels("read_block", hin, ho, list(range(C)))
+            block_dm(ck, "read_block", b)
             blk, blk_h, blk_t, blk_start = b, ho, hdr_term(b.header), st
 
             # ---- read_dedisp_block -----------------------------------------------------------------------------
-            dms = [0.0] + [rng.uniform(0.5, 40.0) for _ in range(2)]
+            dms = [0.0] + [rng.uniform(0.5, 40.0) for _ in range(2)] + [-rng.uniform(0.5, 40.0)]
             for dm in dms:
                 delays = fil.header.get_dmdelays(dm)
                 lo, hi_ = int(max(0, -delays.min())), int(N - delays.max())
@@ -318,6 +385,7 @@ def run(R: vlib.Run):
                              f"Qclose (1 # 1000000000) (cdm_read_dedisp_block {hin_t} {st} {ns} {q(dm)}) {q(b.dm)}", dict(base, impl=ho)))
 
             # ---- streaming reductions -> TimeSeries ------------------------------------------------------------
+            ts_dd = ts_for_later = None
             for rep in range(2 if R.tier == "quick" else 4):
                 st, ns, gulp = sub()
                 none = (rep == 1)
@@ -370,11 +438,17 @@ def run(R: vlib.Run):
                     ck.copy_labels("read_chan", hin, ho, [c0], extra={"ichan": ich})
                     corr.append((f"hdr_close (hdr_read_chan {hin_t} {ich} {st} {coq_ns}) {hdr_term(t.header)}", dict(base, api="read_chan", ichan=ich, impl=ho)))
                 # dedisperse
-                dm = rng.choice([0.0, rng.uniform(0.5, 30.0), rng.uniform(30.0, 300.0)])
+                dm = rng.choice([0.0, rng.uniform(0.5, 30.0), rng.uniform(30.0, 300.0)]) * rng.choice([1, 1, -1]) + 0.0      # + 0.0: no -0.0
+                if rep == 0 and dm_neg_delays() is not None:
+                    dm = dm_neg_delays()
                 delays = fil.header.get_dmdelays(dm).astype(int)
+                # ascending band / negative DM: some delays are negative; the delays are then referred to the earliest channel
+                neg = int(delays.min()) < 0
+                delays = delays - min(0, int(delays.min()))
                 md = int(delays.max())
-                if 0 <= int(delays.min()) and md < nsel - 1:
-                    R.case(("dedisperse", ci, st, nsel, gulp, md), nontrivial=st > 0 or md > 0, regime="dedisperse")
+                if md < nsel - 1:
+                    R.case(("dedisperse", ci, st, nsel, gulp, md, neg), nontrivial=st > 0 or md > 0,
+                           regime="dedisperse_negative_delays" if neg else "dedisperse")
                     kk, t = call(fil.dedisperse, dm, **kw)
                     if kk != "ok":
                         ck.fail("dedisperse", "exception", "dedisperse raised", exc=t, dm=dm, max_delay=md)
@@ -390,6 +464,8 @@ def run(R: vlib.Run):
                         ck.sum_labels("dedisperse", hin, ho, C, 1, spacing=False)
                         corr.append((f"hdr_close (hdr_dedisperse {hin_t} {q(dm)} {st} {coq_ns} {md}) {hdr_term(t.header)} && "
                                      f"(datalen_dedisperse {hin_t} {q(dm)} {st} {coq_ns} {md} =? {len(t.data)})", dict(base, api="dedisperse", dm=dm, impl=ho)))
+                        if dm != 0.0 and len(t.data) >= 16:
+                            ts_dd = t
 
             # ---- files written by the streaming transforms ------------------------------------------------------
             def out(name):
@@ -399,11 +475,22 @@ def run(R: vlib.Run):
 
             for rep in range(2 if R.tier == "quick" else 4):
                 st, ns, gulp = sub()
-                base = dict(cfg, start=st, nsamps=ns, gulp=gulp)
+                none = (rep == 1)            # nsamps left to its default: everything from start to the end of the file
+                if none:
+                    ns = N - st
+                base = dict(cfg, start=st, nsamps=None if none else ns, gulp=gulp)
                 ck = Checker(R, base)
-                kw = dict(gulp=gulp, start=st, nsamps=ns, quiet=True)
+                kw = dict(gulp=gulp, start=st, quiet=True) if none else dict(gulp=gulp, start=st, nsamps=ns, quiet=True)
                 sel = Xf[st:st + ns]
                 dtc = {"filterbank": 1, "time series": 2}
+                hdm = hin["dm"]              # transforms that do not dedisperse keep the DM the input records
+
+                def located(p, expected, rows=None):
+                    """the input channel found in each column of the written file (expected[j] unless the data say otherwise)"""
+                    if not os.path.exists(p):
+                        return list(expected)
+                    hh = reopen(p)
+                    return col_sources(read_back(p, hh[0], hh[1]), sel if rows is None else rows, expected)
 
                 def corr_file(api, args, h, depth_known=True):
                     corr.append((f"file_close (hdr_{api} {hin_t} {args}) {hdr_term(h)} && (depth_{api} {hin_t} {args} =? {int(h.nbits)})",
@@ -416,7 +503,8 @@ def run(R: vlib.Run):
                 if kk != "ok":
                     ck.fail("invert_freq", "exception", "invert_freq raised", exc=r)
                 else:
-                    res = check_file(ck, "invert_freq", p, hin, dict(t0=st, nch=C, depth=nbits, labels=("copy", list(range(C - 1, -1, -1)))), {})
+                    res = check_file(ck, "invert_freq", p, hin, dict(t0=st, dm=hdm, nch=C, depth=nbits,
+                                                                     labels=("copy", located(p, list(range(C - 1, -1, -1))))), {})
                     if res:
                         corr_file("invert_freq", f"{st}", res[0])
                 # apply_channel_mask
@@ -427,7 +515,7 @@ def run(R: vlib.Run):
                 if kk != "ok":
                     ck.fail("apply_channel_mask", "exception", "apply_channel_mask raised", exc=r)
                 else:
-                    res = check_file(ck, "apply_channel_mask", p, hin, dict(t0=st, nch=C, depth=nbits, labels=("copy", list(range(C)))), {})
+                    res = check_file(ck, "apply_channel_mask", p, hin, dict(t0=st, dm=hdm, nch=C, depth=nbits, labels=("copy", located(p, list(range(C))))), {})
                     if res:
                         corr_file("apply_channel_mask", f"{st}", res[0])
                 # downsample
@@ -438,7 +526,7 @@ def run(R: vlib.Run):
                 if kk != "ok":
                     ck.fail("downsample", "exception", "downsample raised", exc=r, tfactor=tf, ffactor=ff)
                 else:
-                    res = check_file(ck, "downsample", p, hin, dict(t0=st, tf=tf, nch=C // ff, depth=nbits, labels=("sum", ff)), dict(tfactor=tf, ffactor=ff))
+                    res = check_file(ck, "downsample", p, hin, dict(t0=st, tf=tf, dm=hdm, nch=C // ff, depth=nbits, labels=("sum", ff)), dict(tfactor=tf, ffactor=ff))
                     if res:
                         corr_file("downsample", f"{tf} {ff} {st}", res[0])
                 # extract_samps
@@ -454,17 +542,22 @@ def run(R: vlib.Run):
                     if back is not None and back.shape[1] == C:
                         o = find_offset(Xf, back, st)
                         t0 = st if o is None else o
-                    res = check_file(ck, "extract_samps", p, hin, dict(t0=t0, nch=C, depth=nbits, labels=("copy", list(range(C)))), {})
+                    res = check_file(ck, "extract_samps", p, hin, dict(t0=t0, dm=hdm, nch=C, depth=nbits, labels=("copy", list(range(C)))), {})
                     if res:
                         corr_file("extract_samps", f"{st} {ns}", res[0])
                 # extract_chans
                 chs = sorted(rng.sample(range(C), 2))
-                R.case(("extract_chans", ci, st, ns, gulp, tuple(chs)), nontrivial=True, regime="extract_chans")
+                chmode = rng.choice(["ascending", "descending", "default"])      # the selection in either order, or left to its default (all channels)
+                if chmode == "descending":
+                    chs = chs[::-1]
+                elif chmode == "default":
+                    chs = list(range(C))
+                R.case(("extract_chans", ci, st, ns, gulp, tuple(chs), chmode), nontrivial=True, regime="extract_chans")
                 basep = os.path.join(d, f"o{ci}_ch")
                 for c in chs:
                     written.pop(f"{basep}_chan{c:04d}.tim", None)
                 bs = rng.choice([1, 200])
-                kk, r = call(fil.extract_chans, chs, basep, batch_size=bs, **kw)
+                kk, r = call(fil.extract_chans, None if chmode == "default" else chs, basep, batch_size=bs, **kw)
                 if kk != "ok":
                     ck.fail("extract_chans", "exception", "extract_chans raised", exc=r, chans=chs)
                 else:
@@ -478,7 +571,7 @@ def run(R: vlib.Run):
                                 found = [(cc, o) for cc, o in found if o is not None]
                                 if found and (c, st) not in found:
                                     c0, t0 = found[0]
-                        res = check_file(ck, "extract_chans", p, hin, dict(t0=t0, nch=1, depth=32, labels=("copy", [c0])), dict(chan=c))
+                        res = check_file(ck, "extract_chans", p, hin, dict(t0=t0, dm=hdm, nch=1, depth=32, labels=("copy", [c0])), dict(chan=c, selection=chmode))
                         if res:
                             corr_file("extract_chans", f"{c} {st}", res[0])
                 # extract_bands
@@ -490,7 +583,8 @@ def run(R: vlib.Run):
                 for i in range(C):
                     written.pop(f"{basep}_sub{i:02d}.fil", None)
                 bs = rng.choice([1, 2, 200])
-                kk, r = call(fil.extract_bands, cstart, nb * cps, cps, basep, batch_size=bs, **kw)
+                cps_arg = None if (nb == 1 and rng.random() < 0.5) else cps          # chanpersub left to its default (= nchans: one band)
+                kk, r = call(fil.extract_bands, cstart, nb * cps, cps_arg, basep, batch_size=bs, **kw)
                 if kk != "ok":
                     ck.fail("extract_bands", "exception", "extract_bands raised", exc=r, chanstart=cstart, nchans_sel=nb * cps, chanpersub=cps)
                 else:
@@ -503,19 +597,25 @@ def run(R: vlib.Run):
                                 hits = [cc for cc in range(C - cps + 1) if np.array_equal(back, sel[:, cc:cc + cps])]
                                 if hits and c0 not in hits:
                                     c0 = hits[0]
-                        res = check_file(ck, "extract_bands", p, hin, dict(t0=st, nch=cps, depth=nbits, labels=("copy", list(range(c0, c0 + cps)))),
-                                         dict(chanstart=cstart, chanpersub=cps, band=i, batch_size=bs))
+                        res = check_file(ck, "extract_bands", p, hin, dict(t0=st, dm=hdm, nch=cps, depth=nbits, labels=("copy", list(range(c0, c0 + cps)))),
+                                         dict(chanstart=cstart, chanpersub=cps_arg, band=i, batch_size=bs))
                         if res:
                             corr_file("extract_bands", f"{cstart} {cps} {(i // bs) * bs} {i % bs} {st}", res[0])
                 # requantize
-                nbo = rng.choice([8, 16, 32])
-                R.case(("requantize", ci, st, ns, gulp, nbo), nontrivial=True, regime="requantize")
+                # packed depths (1/2/4 bits) only from 8-bit inputs and only with whole bytes per block (see R.assume): gulp and nsamps multiples of 8
+                nbo = rng.choice([1, 2, 4, 8, 16, 32] if nbits == 8 else [8, 16, 32])
+                kwq, nsq = kw, ns
+                if nbo < 8:
+                    nsq = ns - ns % 8
+                    kwq = dict(gulp=-(-gulp // 8) * 8, start=st, nsamps=nsq, quiet=True)
+                R.case(("requantize", ci, st, nsq, kwq["gulp"], nbo), nontrivial=True, regime="requantize_packed" if nbo < 8 else "requantize")
                 p = out("rq.fil")
-                kk, r = call(fil.requantize, nbo, p, **kw)
+                kk, r = call(fil.requantize, nbo, p, **kwq)
                 if kk != "ok":
-                    ck.fail("requantize", "exception", "requantize raised", exc=r, nbits_out=nbo)
+                    ck.fail("requantize", "exception", "requantize raised", exc=r, nbits_out=nbo, **({"gulp": kwq["gulp"], "nsamps": nsq} if nbo < 8 else {}))
                 else:
-                    res = check_file(ck, "requantize", p, hin, dict(t0=st, nch=C, depth=nbo, labels=("copy", list(range(C)))), dict(nbits_out=nbo))
+                    res = check_file(ck, "requantize", p, hin, dict(t0=st, dm=hdm, nch=C, depth=nbo, labels=("copy", located(p, list(range(C)), Xf[st:st + nsq]))),
+                                     dict(nbits_out=nbo, **({"gulp": kwq["gulp"], "nsamps": nsq} if nbo < 8 else {})))
                     if res:
                         corr_file("requantize", f"{nbo} {st}", res[0])
                 # remove_zerodm
@@ -525,16 +625,20 @@ def run(R: vlib.Run):
                 if kk != "ok":
                     ck.fail("remove_zerodm", "exception", "remove_zerodm raised", exc=r)
                 else:
-                    res = check_file(ck, "remove_zerodm", p, hin, dict(t0=st, nch=C, depth=nbits, labels=("copy", list(range(C)))), {})
+                    res = check_file(ck, "remove_zerodm", p, hin, dict(t0=st, dm=hdm, nch=C, depth=nbits, labels=("copy", list(range(C)))), {})
                     if res:
                         corr_file("remove_zerodm", f"{st}", res[0])
                 # subband
                 nsub = rng.choice([x for x in (1, 2, 3, 4, 6) if C % x == 0])
-                dm = rng.choice([0.0, rng.uniform(0.5, 30.0), rng.uniform(30.0, 200.0)])
+                dm = rng.choice([0.0, rng.uniform(0.5, 30.0), rng.uniform(30.0, 200.0)]) * rng.choice([1, 1, -1]) + 0.0      # + 0.0: no -0.0
+                if rep == 0 and dm_neg_delays() is not None:
+                    dm = dm_neg_delays()
                 delays = fil.header.get_dmdelays(dm).astype(int)
+                neg = int(delays.min()) < 0       # ascending band / negative DM: delays referred to the earliest channel
+                delays = delays - min(0, int(delays.min()))
                 md = int(delays.max())
-                if int(delays.min()) >= 0 and md < ns - 1:
-                    R.case(("subband", ci, st, ns, gulp, nsub, md), nontrivial=True, regime="subband",
+                if md < ns - 1:
+                    R.case(("subband", ci, st, ns, gulp, nsub, md, neg), nontrivial=True, regime="subband_negative_delays" if neg else "subband",
                            sample=dict(base, api="subband", dm=dm, nsub=nsub, max_delay=md) if ci <= 2 and rep == 0 else None)
                     p = out("sb.fil")
                     kk, r = call(fil.subband, dm, nsub, p, **kw)
@@ -557,23 +661,83 @@ def run(R: vlib.Run):
                 ho = hdict(b.header)
                 if b.data.shape != (ho["nchans"], ho["nsamples"]):
                     ck.fail("block.downsample", "shape", "nchans/nsamples differ from the data's shape", shape=list(b.data.shape), header_out=ho, ffactor=ff, tfactor=tf)
-                ck.common("block.downsample", blk_h, ho, t0=0, tf=tf, extra=dict(ffactor=ff, tfactor=tf))
+                ck.common("block.downsample", blk_h, ho, t0=0, tf=tf, dm=blk_h["dm"], extra=dict(ffactor=ff, tfactor=tf))
                 ck.sum_labels("block.downsample", blk_h, ho, ff, ho["nchans"], extra=dict(ffactor=ff, tfactor=tf))
                 corr.append((f"hdr_close (hdr_block_downsample {blk_t} {ff} {tf}) {hdr_term(b.header)}", dict(base, api="block.downsample", ffactor=ff, tfactor=tf, impl=ho)))
             kk, b = call(blk.normalise)
             R.case(("block_normalise", ci), nontrivial=False, regime="block_other")
-            if kk == "ok" and b.data.shape != (b.header.nchans, b.header.nsamples):
-                ck.fail("block.normalise", "shape", "nchans/nsamples differ from the data's shape", shape=list(b.data.shape))
+            if kk != "ok":
+                ck.fail("block.normalise", "exception", "FilterbankBlock.normalise raised", exc=b)
+            else:
+                if b.data.shape != (b.header.nchans, b.header.nsamples):
+                    ck.fail("block.normalise", "shape", "nchans/nsamples differ from the data's shape", shape=list(b.data.shape))
+                ck.common("block.normalise", blk_h, hdict(b.header), t0=0, dm=blk_h["dm"])
+                ck.copy_labels("block.normalise", blk_h, hdict(b.header), list(range(C)))
             nfin = blk.data.shape[1] + rng.randrange(1, 9)
-            kk, b = call(blk.pad_samples, nfin, rng.randrange(0, nfin - blk.data.shape[1] + 1))
+            poff = rng.randrange(0, nfin - blk.data.shape[1] + 1)
+            kk, b = call(blk.pad_samples, nfin, poff)
             R.case(("block_pad", ci, nfin), nontrivial=True, regime="block_other")
             if kk != "ok":
                 ck.fail("block.pad_samples", "exception", "pad_samples raised", exc=b)
             else:
                 if b.data.shape != (b.header.nchans, b.header.nsamples):
                     ck.fail("block.pad_samples", "shape", "nchans/nsamples differ from the data's shape", shape=list(b.data.shape))
+                # tstart is demanded only of a block padded at its end (leading pad: see R.assume)
+                ck.common("block.pad_samples", blk_h, hdict(b.header), t0=0 if poff == 0 else None, dm=blk_h["dm"], extra=dict(nsamps_final=nfin, offset=poff))
+                ck.copy_labels("block.pad_samples", blk_h, hdict(b.header), list(range(C)), extra=dict(nsamps_final=nfin, offset=poff))
                 corr.append((f"hdr_close (hdr_block_pad_samples {blk_t} {nfin}) {hdr_term(b.header)}", dict(base, api="block.pad_samples", impl=hdict(b.header))))
-            dm = rng.uniform(1.0, 60.0)
+            # the block as read (not dedispersed): its time series and the file written from it record the DM of the input
+            kk, t = call(blk.get_tim)
+            R.case(("block_get_tim_plain", ci), nontrivial=blk_h["dm"] != 0, regime="block_get_tim")
+            if kk != "ok":
+                ck.fail("block.get_tim", "exception", "get_tim raised", exc=t)
+            else:
+                ho = hdict(t.header)
+                if len(t.data) != ho["nsamples"] or ho["nchans"] != 1:
+                    ck.fail("block.get_tim", "shape", "nsamples/nchans differ from the data's shape", length=len(t.data), header_out=ho)
+                ck.common("block.get_tim", blk_h, ho, t0=0, dm=blk_h["dm"], extra=dict(dedispersed=False))
+                ck.sum_labels("block.get_tim", blk_h, ho, C, 1, spacing=False)
+                corr.append((f"hdr_close (hdr_block_get_tim {blk_t} {q(blk.dm)}) {hdr_term(t.header)}", dict(base, api="block.get_tim", dedispersed=False, impl=ho)))
+            p = out("blkp.fil")
+            kk, r = call(blk.to_file, p)
+            R.case(("block_to_file_plain", ci), nontrivial=blk_h["dm"] != 0, regime="block_to_file")
+            if kk != "ok":
+                ck.fail("block.to_file", "exception", "to_file raised", exc=r)
+            else:
+                res = check_file(ck, "block.to_file", p, blk_h, dict(t0=0, dm=blk_h["dm"], nch=C, depth=32, labels=("copy", list(range(C)))), dict(dedispersed=False))
+                if res:
+                    corr.append((f"file_close (hdr_block_to_file {blk_t} {q(blk.dm)}) {hdr_term(res[0])} && (depth_block_to_file {blk_t} {q(blk.dm)} =? {int(res[0].nbits)})",
+                                 dict(base, api="block.to_file", dedispersed=False, impl=res[2])))
+            # dedispersion options: another reference frequency (a rotation: nothing else changes), valid samples only
+            dmv = rng.choice([rng.uniform(1.0, 60.0), rng.uniform(60.0, 600.0)]) * rng.choice([1, 1, -1])
+            for opt, kwd in (("ref_center", dict(ref_freq="center")), ("only_valid", dict(only_valid_samples=True))):
+                dl = np.asarray(blk.header.get_dmdelays(dmv)).astype(int)
+                if opt == "only_valid" and int(dl.max()) - int(dl.min()) >= blk.data.shape[1] - 1:
+                    continue        # not enough samples: the documented ValueError
+                R.case(("block_dedisperse_" + opt, ci, round(dmv, 3)), nontrivial=True, regime="block_dedisperse_options")
+                kk, bv = call(blk.dedisperse, dmv, **kwd)
+                api = "block.dedisperse." + opt
+                if kk != "ok":
+                    ck.fail(api, "exception", "FilterbankBlock.dedisperse raised", exc=bv, dm=dmv, **kwd)
+                    continue
+                ho = hdict(bv.header)
+                if bv.data.shape != (ho["nchans"], ho["nsamples"]):
+                    ck.fail(api, "shape", "nchans/nsamples differ from the data's shape", shape=list(bv.data.shape), header_out=ho, dm=dmv)
+                if not (close(float(bv.dm), dmv, STOL) or close(ho["dm"], dmv, STOL)):
+                    ck.fail(api, "dm", "neither the block nor its header records the DM applied", block_dm=float(bv.dm), header_out=ho, dm=dmv)
+                t0v = 0
+                if opt == "only_valid":
+                    # the first column kept, for the reference channel (delay 0): demanded when no delay is negative (see R.assume)
+                    o = find_offset(blk.data[0], bv.data[0], 0) if bv.data.shape[1] <= blk.data.shape[1] else None
+                    t0v = o if (o is not None and int(dl.min()) >= 0) else None
+                    if bv.data.shape[1] != blk.data.shape[1] - (int(dl.max()) - int(dl.min())):
+                        ck.fail(api, "valid-length", "the number of valid samples is not the block length less the spread of the delays",
+                                shape=list(bv.data.shape), delays=[int(dl.min()), int(dl.max())], dm=dmv)
+                ck.common(api, blk_h, ho, t0=t0v, extra=dict(dm=dmv))
+                ck.copy_labels(api, blk_h, ho, list(range(C)), extra=dict(dm=dmv))
+                corr.append((f"hdr_close (hdr_block_dedisperse {blk_t} {q(dmv)} {bv.data.shape[1]}) {hdr_term(bv.header)} && "
+                             f"Qclose (1 # 1000000000) (cdm_block_dedisperse {blk_t} {q(dmv)} {bv.data.shape[1]}) {q(bv.dm)}", dict(base, api=api, dm=dmv, impl=ho)))
+            dm = rng.uniform(1.0, 60.0) * rng.choice([1, 1, -1])
             kk, bd = call(blk.dedisperse, dm)
             R.case(("block_dedisperse", ci, round(dm, 3)), nontrivial=True, regime="block_dedisperse")
             if kk != "ok":
@@ -613,47 +777,120 @@ def run(R: vlib.Run):
                                      dict(base, api="block.to_file", dm=dm, impl=res[2])))
             kk, b = call(blk.dmt_transform, 20.0, 4)
             R.case(("block_dmt", ci), nontrivial=False, regime="block_other")
-            if kk == "ok" and b.data.shape[1] != b.header.nsamples:
-                ck.fail("block.dmt_transform", "shape", "nsamples differs from the data's length", shape=list(b.data.shape))
+            if kk != "ok":
+                ck.fail("block.dmt_transform", "exception", "dmt_transform raised", exc=b)
+            else:
+                if b.data.shape[1] != b.header.nsamples:
+                    ck.fail("block.dmt_transform", "shape", "nsamples differs from the data's length", shape=list(b.data.shape))
+                ck.common("block.dmt_transform", blk_h, hdict(b.header), t0=0)
 
             # ---- products of a time series -------------------------------------------------------------------------
-            t = ts_for_later
-            th, tt = hdict(t.header), hdr_term(t.header)
-            base = dict(cfg, timeseries_of="collapse", length=len(t.data))
-            ck = Checker(R, base)
-            fac = rng.choice([2, 3, 5])
-            kk, u = call(t.downsample, fac)
-            R.case(("ts_downsample", ci, fac), nontrivial=True, regime="ts_downsample")
-            if kk != "ok":
-                ck.fail("ts.downsample", "exception", "TimeSeries.downsample raised", exc=u, factor=fac)
-            else:
-                ho = hdict(u.header)
-                if len(u.data) != ho["nsamples"]:
-                    ck.fail("ts.downsample", "shape", "nsamples differs from the data's length", length=len(u.data), header_out=ho)
-                ck.common("ts.downsample", th, ho, t0=0, tf=fac, dm=th["dm"], extra=dict(factor=fac))
-                corr.append((f"hdr_close (hdr_ts_downsample {tt} {fac} {len(u.data)}) {hdr_term(u.header)}", dict(base, api="ts.downsample", factor=fac, impl=ho)))
-            for nm, fn, args in (("pad", t.pad, (rng.randrange(1, 9),)), ("resample", t.resample, (rng.uniform(-50, 50),))):
-                kk, u = call(fn, *args)
-                R.case(("ts_" + nm, ci), nontrivial=False, regime="ts_other")
+            for of, t in (("collapse", ts_for_later), ("dedisperse", ts_dd)):      # dedisperse: a series whose DM is not 0
+                if t is None:
+                    continue
+                th, tt = hdict(t.header), hdr_term(t.header)
+                base = dict(cfg, timeseries_of=of, length=len(t.data))
+                ck = Checker(R, base)
+                fac = rng.choice([2, 3, 5])
+                kk, u = call(t.downsample, fac)
+                R.case(("ts_downsample", ci, fac, of), nontrivial=True, regime="ts_downsample")
                 if kk != "ok":
-                    ck.fail("ts." + nm, "exception", f"TimeSeries.{nm} raised", exc=u)
+                    ck.fail("ts.downsample", "exception", "TimeSeries.downsample raised", exc=u, factor=fac)
                 else:
-                    if len(u.data) != u.header.nsamples:
-                        ck.fail("ts." + nm, "shape", "nsamples differs from the data's length", length=len(u.data))
-                    ck.common("ts." + nm, th, hdict(u.header), t0=0, tf=1)
-                    corr.append((f"hdr_close (hdr_ts_{nm} {tt} {len(u.data)}) {hdr_term(u.header)}", dict(base, api="ts." + nm, impl=hdict(u.header))))
-            p = out("ts.tim")
-            kk, r = call(t.to_tim, p)
-            R.case(("ts_to_tim", ci), nontrivial=True, regime="ts_to_tim")
-            if kk != "ok":
-                ck.fail("ts.to_tim", "exception", "to_tim raised", exc=r)
-            else:
-                res = check_file(ck, "ts.to_tim", p, th, dict(t0=0, dm=th["dm"], nch=1, depth=32), {})
-                if res:
-                    corr.append((f"file_close (hdr_ts_to_tim {tt}) {hdr_term(res[0])} && (depth_ts_to_tim {tt} =? 32)", dict(base, api="ts.to_tim", impl=res[2])))
-                    kk, u = call(TimeSeries.from_tim, p)
-                    if kk != "ok" or len(u.data) != len(t.data):
-                        ck.fail("ts.to_tim", "reread", "from_tim(to_tim(ts)) has a different length", got=(u if kk != "ok" else len(u.data)))
+                    ho = hdict(u.header)
+                    if len(u.data) != ho["nsamples"]:
+                        ck.fail("ts.downsample", "shape", "nsamples differs from the data's length", length=len(u.data), header_out=ho)
+                    ck.common("ts.downsample", th, ho, t0=0, tf=fac, dm=th["dm"], extra=dict(factor=fac))
+                    corr.append((f"hdr_close (hdr_ts_downsample {tt} {fac} {len(u.data)}) {hdr_term(u.header)}", dict(base, api="ts.downsample", factor=fac, impl=ho)))
+                for nm, fn, args in (("pad", t.pad, (rng.randrange(1, 9),)), ("resample", t.resample, (rng.uniform(-50, 50),))):
+                    kk, u = call(fn, *args)
+                    R.case(("ts_" + nm, ci, of), nontrivial=False, regime="ts_other")
+                    if kk != "ok":
+                        ck.fail("ts." + nm, "exception", f"TimeSeries.{nm} raised", exc=u)
+                    else:
+                        if len(u.data) != u.header.nsamples:
+                            ck.fail("ts." + nm, "shape", "nsamples differs from the data's length", length=len(u.data))
+                        ck.common("ts." + nm, th, hdict(u.header), t0=0, tf=1, dm=th["dm"])
+                        corr.append((f"hdr_close (hdr_ts_{nm} {tt} {len(u.data)}) {hdr_term(u.header)}", dict(base, api="ts." + nm, impl=hdict(u.header))))
+                # the other TimeSeries -> TimeSeries methods: same sampling, start and DM; the data's length in the header
+                other = np.asarray(t.data[: max(2, len(t.data) // 3)], dtype=np.float32)
+                for nm, fn, args, kwa in (("normalise", t.normalise, (), {}), ("deredden", t.deredden, (), {"window": 7 * th["tsamp"]}),
+                                          ("apply_boxcar", t.apply_boxcar, (rng.choice([1, 2, 3, 4]),), {}), ("correlate", t.correlate, (other,), {})):
+                    kk, u = call(fn, *args, **kwa)
+                    R.case(("ts_" + nm, ci, of), nontrivial=False, regime="ts_other")
+                    if kk != "ok":
+                        ck.fail("ts." + nm, "exception", f"TimeSeries.{nm} raised", exc=u)
+                        continue
+                    ho = hdict(u.header)
+                    if len(u.data) != ho["nsamples"] or ho["nchans"] != 1:
+                        ck.fail("ts." + nm, "shape", "nsamples/nchans differ from the data's shape", length=len(u.data), header_out=ho)
+                    # a correlation is a function of lag, not of time: only the length and the sampling interval are demanded of it
+                    ck.common("ts." + nm, th, ho, t0=None if nm == "correlate" else 0, tf=1, dm=th["dm"])
+                    if nm == "correlate":
+                        if len(u.data) != len(t.data) + len(other) - 1:
+                            ck.fail("ts.correlate", "length", "the full correlation does not have len(a) + len(b) - 1 lags", length=len(u.data), lengths=[len(t.data), len(other)])
+                        corr.append((f"hdr_close (hdr_ts_correlate {tt} {len(u.data)}) {hdr_term(u.header)}", dict(base, api="ts.correlate", impl=ho)))
+                p = out("ts.tim")
+                kk, r = call(t.to_tim, p)
+                R.case(("ts_to_tim", ci, of), nontrivial=True, regime="ts_to_tim")
+                if kk != "ok":
+                    ck.fail("ts.to_tim", "exception", "to_tim raised", exc=r)
+                else:
+                    res = check_file(ck, "ts.to_tim", p, th, dict(t0=0, dm=th["dm"], nch=1, depth=32), {})
+                    if res:
+                        corr.append((f"file_close (hdr_ts_to_tim {tt}) {hdr_term(res[0])} && (depth_ts_to_tim {tt} =? 32)", dict(base, api="ts.to_tim", impl=res[2])))
+                        kk, u = call(TimeSeries.from_tim, p)
+                        if kk != "ok" or len(u.data) != len(t.data):
+                            ck.fail("ts.to_tim", "reread", "from_tim(to_tim(ts)) has a different length", got=(u if kk != "ok" else len(u.data)))
+            # ---- the same data as a set of two contiguous files: a sub-range that starts in the second file --------------------
+            if ci <= (4 if R.tier == "quick" else 12):
+                cut = rng.randrange(N // 4, N // 2)
+                kk, fs = call(lambda: FilReader(filutil.write_fil_set(os.path.join(d, f"o{ci}_set"), X, nbits, [cut], tsamp=tsamp, tstart=tstart,
+                                                                      fch1=fch1, foff=foff, dm=in_dm)))
+                st = rng.randrange(cut, cut + (N - cut) // 2)
+                ns = rng.randrange(4, N - st + 1)
+                gulp = rng.choice([3, 5, ns])
+                base = dict(cfg, files=2, second_file_starts_at=cut, start=st, nsamps=ns, gulp=gulp)
+                ck = Checker(R, base)
+                R.case(("multifile", ci, cut, st, ns, gulp), nontrivial=True, regime="multifile")
+                if kk != "ok":
+                    ck.fail("FilReader", "multifile-exception", "a set of two contiguous files could not be opened", exc=fs)
+                else:
+                    hs = hdict(fs.header)
+                    if hs["nsamples"] != N or abs(hs["tstart"] - hin["tstart"]) * 86400.0 > TTOL:
+                        ck.fail("FilReader", "multifile-header", "the header of a file set does not start at the first file / span all files", header_out=hs)
+                    kk, b = call(fs.read_block, st, ns)
+                    if kk != "ok":
+                        ck.fail("read_block", "exception", "read_block raised", exc=b)
+                    else:
+                        ho = hdict(b.header)
+                        if b.data.shape != (ho["nchans"], ho["nsamples"]):
+                            ck.fail("read_block", "shape", "nchans/nsamples of the header differ from the data's shape", shape=list(b.data.shape), header_out=ho)
+                        t0 = find_offset(Xf, b.data.T, st)
+                        ck.common("read_block", hin, ho, t0=st if t0 is None else t0, dm=hin["dm"])
+                        ck.copy_labels("read_block", hin, ho, list(range(C)))
+                        block_dm(ck, "read_block", b)
+                    kk, t = call(fs.collapse, gulp=gulp, start=st, nsamps=ns, quiet=True)
+                    if kk != "ok":
+                        ck.fail("collapse", "exception", "collapse raised", exc=t)
+                    else:
+                        ho = hdict(t.header)
+                        if len(t.data) != ho["nsamples"] or ho["nchans"] != 1:
+                            ck.fail("collapse", "shape", "nsamples/nchans differ from the data's shape", length=len(t.data), header_out=ho)
+                        t0 = find_offset(Xf.sum(1), np.asarray(t.data, dtype=np.float64), st)
+                        ck.common("collapse", hin, ho, t0=st if t0 is None else t0, dm=0.0)
+                    p = out("set_samps.fil")
+                    kk, r = call(fs.extract_samps, st, ns, p, gulp=gulp, quiet=True)
+                    if kk != "ok":
+                        ck.fail("extract_samps", "exception", "extract_samps raised", exc=r)
+                    else:
+                        t0 = st
+                        hh = reopen(p)
+                        back = read_back(p, hh[0], hh[1])
+                        if back is not None and back.shape[1] == C:
+                            o = find_offset(Xf, back, st)
+                            t0 = st if o is None else o
+                        check_file(ck, "extract_samps", p, hin, dict(t0=t0, dm=hin["dm"], nch=C, depth=nbits, labels=("copy", list(range(C)))), {})
             for f in os.listdir(d):
                 if f.startswith(f"o{ci}_"):
                     os.remove(os.path.join(d, f))
@@ -757,6 +994,7 @@ def _pulse_cases(R):
         for N, nch in ((40, 4), (97, 2), (300, 4)) if R.tier == "quick" else ((40, 4), (97, 2), (300, 4), (41, 8), (1000, 2)):
             x = (2 * np.arange(N)[:, None] + 1000 * np.arange(nch)[None, :]).astype(np.float64)      # even values: every median is an integer
             path = filutil.write_fil(os.path.join(d, f"p{N}.fil"), x, 32, fch1=1500.0, foff=-25.0, tsamp=0.001)
+            p_tstart, p_tsamp = 60000.0, 0.001        # write_fil's default tstart
             toas = sorted(set([0, 1, 2, N // 2, N - 2, N - 1] + [rng.randrange(0, N) for _ in range(6 if R.tier == "quick" else 40)]))
             for toa in toas:
                 for pw in (1, 2, 4, 7):
@@ -786,6 +1024,14 @@ def _pulse_cases(R):
                             R.fail("PulseExtractor-shape", "shape of the extracted block / header nsamples differs from the declared block length",
                                    dict(case, shape=list(data.shape), header_nsamples=int(blk.header.nsamples)))
                             continue
+                        if nst >= 0:      # nothing padded at the start (leading pad: see R.assume in run())
+                            err = (float(blk.header.tstart) - (p_tstart + nst * p_tsamp / 86400.0)) * 86400.0
+                            if abs(err) > TTOL:
+                                R.fail("PulseExtractor-tstart", "tstart of the extracted block is not the file's advanced by nstart*tsamp (5 us)",
+                                       dict(case, header_tstart=float(blk.header.tstart), error_seconds=err))
+                        if not (close(float(blk.header.tsamp), p_tsamp, STOL) and lclose(float(blk.header.fch1), 1500.0, 25.0) and close(float(blk.header.foff), -25.0, FTOL)):
+                            R.fail("PulseExtractor-header", "tsamp / fch1 / foff of the extracted block differ from the file's",
+                                   dict(case, header_out=hdict(blk.header)))
                         ks = np.arange(ns) + nst
                         inside = (ks >= 0) & (ks < N)
                         want = np.empty((nch, ns))
@@ -798,6 +1044,46 @@ def _pulse_cases(R):
                                    dict(case, channel=int(bad[0]), k=int(bad[1]), got=float(data[bad[0], bad[1]]), want=float(want[bad[0], bad[1]])))
                         c = rng.randrange(nch)
                         rows.append((toa, pw, dd, mn, N, geom, c, int(med[c]), data[c].astype(np.int64).tolist(), case))
+        # a pulse given at another channel's frequency with a selection of channels, foff of either sign and not representable
+        for pi, (pf1, pfo, pC, pN) in enumerate(((1400.0, -1.0 / 3.0, 6, 200), (1200.0, 0.1, 8, 160), (1500.0, -25.0, 4, 300))):
+            x = (2 * np.arange(pN)[:, None] + 1000 * np.arange(pC)[None, :]).astype(np.float64)
+            path = filutil.write_fil(os.path.join(d, f"ps{pi}.fil"), x, 32, fch1=pf1, foff=pfo, tsamp=0.001)
+            for _ in range(6 if R.tier == "quick" else 24):
+                k0 = rng.randrange(0, pC)
+                n = rng.randrange(1, pC - k0 + 1)
+                toa, pw, dm, mn = rng.randrange(0, pN), rng.choice([1, 2, 4]), rng.choice([0.0, 3.0, 40.0]), rng.choice([1, 8, 16])
+                fq = rng.choice([pf1 + k0 * pfo, float(np.float32(pf1 + k0 * pfo))])
+                case = {"api": "PulseExtractor.get_data", "N": pN, "nchans": pC, "fch1": pf1, "foff": pfo, "pulse_toa": toa, "pulse_width": pw, "pulse_dm": dm,
+                        "min_nsamps": mn, "toa_freq": fq, "toa_channel": k0, "nchans_req": n}
+                R.tick(case)
+                R.case(("pulse-sub", pi, toa, pw, dm, mn, k0, n), nontrivial=k0 > 0 or n < pC, regime="pulse-extractor-selection")
+                try:
+                    px = PulseExtractor(path, toa, pw, dm, min_nsamps=mn, toa_freq=fq, nchans=n)
+                    nst, ns = int(px.nstart), int(px.nsamps)
+                    blk = px.get_data(pad_mode="median")
+                except Exception as e:  # noqa: BLE001
+                    R.fail("PulseExtractor-exception", "PulseExtractor with toa_freq / nchans raised although the block overlaps the file and the channels exist",
+                           dict(case, exc=f"{type(e).__name__}: {str(e)[:100]}"))
+                    continue
+                data = np.asarray(blk.data, dtype=np.float64)
+                ho = hdict(blk.header)
+                if data.shape != (n, ns) or ho["nsamples"] != ns or ho["nchans"] != n:
+                    R.fail("PulseExtractor-shape", "shape of the extracted block / header nsamples, nchans differ from the declared block",
+                           dict(case, shape=list(data.shape), header_out=ho))
+                    continue
+                ks = np.arange(ns) + nst
+                inside = (ks >= 0) & (ks < pN)
+                srcs = [[c for c in range(pC) if np.array_equal(data[j, inside], x[ks[inside], c])] for j in range(n)]
+                src0 = k0 if (srcs[0] and k0 in srcs[0]) or not srcs[0] else srcs[0][0]
+                if any(not r for r in srcs) or any((src0 + j) not in srcs[j] for j in range(n)):
+                    R.fail("PulseExtractor-values", "the rows of the extracted block are not consecutive channels of the file at samples nstart+k", dict(case, sources=srcs))
+                elif src0 != k0:
+                    R.fail("PulseExtractor-channel", "the block does not start at the channel whose frequency was given", dict(case, first_channel=src0))
+                if not lclose(ho["fch1"], pf1 + src0 * pfo, pfo) or not close(ho["foff"], pfo, FTOL):
+                    R.fail("PulseExtractor-label", "fch1 / foff of the extracted block are not the labels of the channels it holds",
+                           dict(case, header_out=ho, first_channel=src0, its_label=pf1 + src0 * pfo))
+                if nst >= 0 and abs(ho["tstart"] - (60000.0 + nst * 0.001 / 86400.0)) * 86400.0 > TTOL:
+                    R.fail("PulseExtractor-tstart", "tstart of the extracted block is not the file's advanced by nstart*tsamp (5 us)", dict(case, header_out=ho, nstart=nst))
         # correspondence: regenerated geometry and row against the implementation
         per = 200
         for si in range(0, len(rows), per):
@@ -856,7 +1142,7 @@ def _locate(ref, out, prefer):
 
 class ScaleChecker(Checker):
     """the clauses of Checker with failure keys scale-<api>-<clause>; the label clauses are evaluated with arrays (same
-    arithmetic and tolerances as Checker: float64 fch1 + k*foff, FTOL relative) so that 2**16 channels stay affordable"""
+    arithmetic and tolerances as Checker: float64 fch1 + k*foff, FTOL relative and at most LFRAC of a channel) so that 2**16 channels stay affordable"""
 
     def fail(self, api, clause, what, **kw):
         self.R.fail(f"scale-{api}-{clause}", what + " [at scale]", dict(self.base, api=api, **kw))
@@ -878,7 +1164,7 @@ class ScaleChecker(Checker):
         c = np.asarray(chans, dtype=np.int64)
         out = hout["fch1"] + np.arange(len(c), dtype=np.int64) * hout["foff"]
         inn = hin["fch1"] + c * hin["foff"]
-        bad = np.flatnonzero(np.abs(out - inn) > FTOL * np.maximum(np.abs(out), np.abs(inn)))
+        bad = np.flatnonzero(np.abs(out - inn) > np.minimum(FTOL * np.maximum(np.abs(out), np.abs(inn)), LFRAC * abs(hin["foff"])))
         if bad.size:
             j = int(bad[0])
             self.fail(api, "label", "label of an output channel differs from that of the input channel it was copied from",
@@ -896,7 +1182,7 @@ class ScaleChecker(Checker):
         b = hin["fch1"] + (j * factor + factor - 1) * hin["foff"]
         lo, hi = np.minimum(a, b), np.maximum(a, b)
         x = hout["fch1"] + j * hout["foff"]
-        slack = FTOL * np.maximum(np.abs(lo), np.abs(hi))
+        slack = np.minimum(FTOL * np.maximum(np.abs(lo), np.abs(hi)), LFRAC * abs(hin["foff"]))
         bad = np.flatnonzero(~((lo - slack <= x) & (x <= hi + slack)))
         if bad.size:
             k = int(bad[0])
@@ -952,10 +1238,10 @@ def scale(R: vlib.Run):
         return orig_cwrite(self, arr)
     orig_track = _readers.track
 
-    def source(fi, tag, N, C, nbits, hi, fch1, foff, tsamp, tstart, dtype=np.uint8):
+    def source(fi, tag, N, C, nbits, hi, fch1, foff, tsamp, tstart, dtype=np.uint8, dm=0.0):
         x = _scale_data(seed, fi, N, C, hi, dtype)
-        path = filutil.write_fil(os.path.join(d, f"{tag}.fil"), x, nbits, fch1=fch1, foff=foff, tsamp=tsamp, tstart=tstart)
-        cfg = {"file": tag, "fch1": fch1, "foff": foff, "nchans": C, "nsamples": N, "nbits": nbits, "tsamp": tsamp, "tstart": tstart,
+        path = filutil.write_fil(os.path.join(d, f"{tag}.fil"), x, nbits, fch1=fch1, foff=foff, tsamp=tsamp, tstart=tstart, dm=dm)
+        cfg = {"file": tag, "fch1": fch1, "foff": foff, "nchans": C, "nsamples": N, "nbits": nbits, "tsamp": tsamp, "tstart": tstart, "header_dm": dm,
                "data": f"props/c08.py _scale_data({seed}, {fi}, {N}, {C}, {hi}) written by filutil.write_fil; see scale()"}
         R.tick(dict(cfg, api="FilReader"))
         fil = FilReader(path)
@@ -1029,11 +1315,13 @@ def scale(R: vlib.Run):
         return h, hdrlen, ho
 
     def delays_of(S, dm):
+        """delays referred to the earliest channel (ascending band / negative DM: some raw delays are negative), their maximum, 0"""
         dl = S.fil.header.get_dmdelays(dm).astype(int)
+        dl = dl - min(0, int(dl.min()))
         return dl, int(dl.max()), int(dl.min())
 
     def pick_dm(S, lo, hi):
-        """a DM whose largest delay lies in [lo, hi) samples (descending bands), else None"""
+        """a DM whose largest delay (referred to the earliest channel) lies in [lo, hi) samples, else None"""
         for v in np.geomspace(0.05, 5000.0, 400):
             dl, md, mn = delays_of(S, float(v))
             if mn >= 0 and lo <= md < hi:
@@ -1142,18 +1430,19 @@ def scale(R: vlib.Run):
                 os.remove(p)
 
         allc = np.arange(C)
+        hdm = hin["dm"]        # transforms that do not dedisperse keep the DM the input records
         if want("invert_freq"):
-            simple("invert_freq", fil.invert_freq, lambda p: (p,), dict(t0=st, nch=C, depth=nbits, labels=("copy", allc[::-1])), {})
+            simple("invert_freq", fil.invert_freq, lambda p: (p,), dict(t0=st, dm=hdm, nch=C, depth=nbits, labels=("copy", allc[::-1])), {})
         if want("apply_channel_mask"):
             mask = np.zeros(C, dtype=bool); mask[C // 2] = True
-            simple("apply_channel_mask", fil.apply_channel_mask, lambda p: (mask, 0, p), dict(t0=st, nch=C, depth=nbits, labels=("copy", allc)), {})
+            simple("apply_channel_mask", fil.apply_channel_mask, lambda p: (mask, 0, p), dict(t0=st, dm=hdm, nch=C, depth=nbits, labels=("copy", allc)), {})
         if want("downsample"):
-            simple("downsample", fil.downsample, lambda p: (tf, ff, p), dict(t0=st, tf=tf, nch=C // ff, depth=nbits, labels=("sum", ff)),
+            simple("downsample", fil.downsample, lambda p: (tf, ff, p), dict(t0=st, tf=tf, dm=hdm, nch=C // ff, depth=nbits, labels=("sum", ff)),
                    dict(tfactor=tf, ffactor=ff))
         if want("requantize") and nbo:
-            simple("requantize", fil.requantize, lambda p: (nbo, p), dict(t0=st, nch=C, depth=nbo, labels=("copy", allc)), dict(nbits_out=nbo))
+            simple("requantize", fil.requantize, lambda p: (nbo, p), dict(t0=st, dm=hdm, nch=C, depth=nbo, labels=("copy", allc)), dict(nbits_out=nbo))
         if want("remove_zerodm") and zerodm:
-            simple("remove_zerodm", fil.remove_zerodm, lambda p: (p,), dict(t0=st, nch=C, depth=nbits, labels=("copy", allc)), {})
+            simple("remove_zerodm", fil.remove_zerodm, lambda p: (p,), dict(t0=st, dm=hdm, nch=C, depth=nbits, labels=("copy", allc)), {})
         if want("subband") and dm is not None:
             dl, md, mn = delays_of(S, dm)
             if mn >= 0 and md < ns - 1:
@@ -1175,7 +1464,7 @@ def scale(R: vlib.Run):
                     o = _locate(S.x, back, st - S.x0)
                     t0 = st if o is None else o + S.x0
                 del back
-                check_file(ck, "extract_samps", p, hin, dict(t0=t0, nch=C, depth=nbits, labels=("copy", allc)), {})
+                check_file(ck, "extract_samps", p, hin, dict(t0=t0, dm=hdm, nch=C, depth=nbits, labels=("copy", allc)), {})
             if os.path.exists(p):
                 os.remove(p)
         # extract_chans
@@ -1205,7 +1494,7 @@ def scale(R: vlib.Run):
                                 hits = np.flatnonzero((sel == back).all(0))
                                 if len(hits):
                                     c0 = int(hits[0])
-                    check_file(ck, "extract_chans", p, hin, dict(t0=t0, nch=1, depth=32, labels=("copy", [c0])), dict(chan=c))
+                    check_file(ck, "extract_chans", p, hin, dict(t0=t0, dm=hdm, nch=1, depth=32, labels=("copy", [c0])), dict(chan=c))
                 for p in r:
                     if os.path.exists(p):
                         os.remove(p)
@@ -1234,7 +1523,7 @@ def scale(R: vlib.Run):
                             hits = [int(cc) for cc in first[:8] if cc + cps <= C and np.array_equal(back, sel[:, cc:cc + cps])]
                             if hits:
                                 c0 = hits[0]
-                    check_file(ck, "extract_bands", p, hin, dict(t0=st, nch=cps, depth=nbits, labels=("copy", np.arange(c0, c0 + cps))),
+                    check_file(ck, "extract_bands", p, hin, dict(t0=st, dm=hdm, nch=cps, depth=nbits, labels=("copy", np.arange(c0, c0 + cps))),
                                dict(chanstart=cstart, chanpersub=cps, band=i))
                 for p in r:
                     if os.path.exists(p):
@@ -1254,8 +1543,10 @@ def scale(R: vlib.Run):
         if blk.data.shape != (bh["nchans"], bh["nsamples"]):
             ck.fail("read_block", "shape", "nchans/nsamples of the header differ from the data's shape", shape=list(blk.data.shape), header_out=bh)
         o = _locate(S.x, blk.data.T, st - S.x0)
-        ck.common("read_block", hin, bh, t0=st if o is None else o + S.x0)
+        ck.common("read_block", hin, bh, t0=st if o is None else o + S.x0, dm=hin["dm"])
         ck.copy_labels("read_block", hin, bh, np.arange(C))
+        if not close(float(blk.dm), hin["dm"], STOL):
+            ck.fail("read_block", "block-dm", "the dm of a block read from the file is not the DM the input's header records", block_dm=float(blk.dm), header_in=hin)
         par = dict(block_start=st, block_nsamps=int(blk.data.shape[1]))
         # downsample
         case, ck = begin(S, "block.downsample", ffactor=ff, tfactor=tf, **par)
@@ -1267,7 +1558,7 @@ def scale(R: vlib.Run):
             ho = hdict(b.header)
             if b.data.shape != (ho["nchans"], ho["nsamples"]):
                 ck.fail("block.downsample", "shape", "nchans/nsamples differ from the data's shape", shape=list(b.data.shape), header_out=ho)
-            ck.common("block.downsample", bh, ho, t0=0, tf=tf, extra=dict(ffactor=ff, tfactor=tf))
+            ck.common("block.downsample", bh, ho, t0=0, tf=tf, dm=bh["dm"], extra=dict(ffactor=ff, tfactor=tf))
             ck.sum_labels("block.downsample", bh, ho, ff, ho["nchans"], extra=dict(ffactor=ff, tfactor=tf))
         b = None
         if chain:       # a history of products: `chain` successive downsample(2, 2), then dedisperse and get_tim
@@ -1308,7 +1599,9 @@ def scale(R: vlib.Run):
             case, ck = begin(S, "block.normalise", **par)
             R.tick(case)
             kk, b = call(blk.normalise)
-            if kk == "ok" and b.data.shape != (b.header.nchans, b.header.nsamples):
+            if kk != "ok":
+                ck.fail("block.normalise", "exception", "FilterbankBlock.normalise raised", exc=b)
+            elif b.data.shape != (b.header.nchans, b.header.nsamples):
                 ck.fail("block.normalise", "shape", "nchans/nsamples differ from the data's shape", shape=list(b.data.shape))
             b = None
         case, ck = begin(S, "block.pad_samples", nsamps_final=nfin, **par)
@@ -1323,7 +1616,9 @@ def scale(R: vlib.Run):
             case, ck = begin(S, "block.dmt_transform", **par)
             R.tick(case)
             kk, b = call(blk.dmt_transform, 20.0, 4)
-            if kk == "ok" and b.data.shape[1] != b.header.nsamples:
+            if kk != "ok":
+                ck.fail("block.dmt_transform", "exception", "dmt_transform raised", exc=b)
+            elif b.data.shape[1] != b.header.nsamples:
                 ck.fail("block.dmt_transform", "shape", "nsamples differs from the data's length", shape=list(b.data.shape))
             b = None
         case, ck = begin(S, "block.dedisperse", dm=dm, **par)
@@ -1452,11 +1747,13 @@ def scale(R: vlib.Run):
                     ck.fail("read_block", "rows", "returned rows are not rows of the input at the requested samples", shape=list(b.data.shape))
                     continue
                 src = [int(r[0]) for r in rows]
-                if not close(f, label(hin, src[0]), FTOL):
+                if not nearest(f, label(hin, src[0]), hin["foff"]):
                     ck.fail("read_block", "freq-index", "requesting a channel's frequency returned a different channel",
                             returned_first_channel=src[0], its_label=label(hin, src[0]))
                 ck.copy_labels("read_block", hin, ho, src)
-                ck.common("read_block", hin, ho, t0=st)
+                ck.common("read_block", hin, ho, t0=st, dm=hin["dm"])
+                if not close(float(b.dm), hin["dm"], STOL):
+                    ck.fail("read_block", "block-dm", "the dm of a block read from the file is not the DM the input's header records", block_dm=float(b.dm), header_in=hin)
         for k, n in ((C - 2, 5), (C - 1, 2)):
             case, ck = begin(S, "read_block", start=st, nsamps=ns, channel=k, nchans_req=n, overrun=True)
             R.tick(case)
@@ -1596,11 +1893,11 @@ def scale(R: vlib.Run):
     try:
         with_source(long_file, 0, "L", (1 << 24) + 70001, 2, 8, 64, 400.0, -100.0 / 3.0, 6.4e-5, 58000.123456789)
         huge_file()
-        with_source(wide_file, 2, "W", 320, 66000, 8, 64, 1500.0, -0.005, 1e-3, 60000.0)
+        with_source(wide_file, 2, "W", 320, 66000, 8, 64, 1500.0, -0.005, 1e-3, 60000.0, dm=12.5)
         with_source(big_blocks((4097, 16385, 70000), (4096, 16384, 65536), 70000), 3, "B8", 80001, 256, 8, 64, 1400.0, -1.0 / 3.0, 2.56e-4, 59999.5)
-        with_source(big_blocks((4097, 16385, 70000), (65536,), None), 4, "B2", 80000, 256, 2, 4, 1500.0, -0.1, 2.56e-4, 59999.5)
+        with_source(big_blocks((4097, 16385, 70000), (65536,), None), 4, "B2", 80000, 256, 2, 4, 1500.0, -0.1, 2.56e-4, 59999.5, dm=12.5)
         with_source(big_blocks((16385, 65537), (16384, 65536), None), 5, "B32", 70000, 64, 32, 1000, 1100.0, 0.1, 2.56e-4, 59999.5, dtype=np.uint16)
-        with_source(many_blocks, 6, "M", 200001, 2, 8, 128, 1200.0, -1.0 / 7.0, 1e-3, 60000.0)
+        with_source(many_blocks, 6, "M", 200001, 2, 8, 128, 1200.0, -1.0 / 7.0, 1e-3, 60000.0, dm=12.5)
     finally:
         fileio.FileWriter.cwrite = orig_cwrite
         _readers.track = orig_track
